@@ -18,6 +18,17 @@ CHECKS = {
              "statement is silent). Single-threaded; Peer objects modified only through the Network API."),
 }
 
+CHECKS["C04"] = dict(
+    category="exploration", design_ref="DESIGN.md 2/C04",
+    technique="PBT with fault injection on a simulated network; oracle = reference key copies + reference cell encoding",
+    text="Hypothesis-drawn cases (hop count, cell kind, direction, payload length/shape, destination, in-flight fault) run "
+         "the real circuit protocol between real TunnelCommunity nodes on a simulated network under a virtual clock; "
+         "delivery, per-link layering (checked with key objects the harness derives itself from traced secrets) and "
+         "non-delivery of altered/foreign cells are judged per case; a positional sweep flips every n-th byte of a data "
+         "cell on every link. Exploration only: no claim beyond the generated cases.",
+    note="Trusted: AEAD/DH/KDF primitives of ipv8_rust_tunnels; the reference encoding of cells (DESIGN Appendix B). "
+         "e2e (hidden-service) circuits are not covered.")
+
 PENDING = {}
 
 def main():
